@@ -462,6 +462,10 @@ def find_unique(y, tol=1e-6):
     array([ True, False,  True, False,  True,  True], dtype=bool)
     """
     y = np.atleast_1d(y)
+    if y.dtype.kind in "iub":
+        # differences of unsigned or narrow integer values would
+        # wrap around:
+        y = y.astype(float)
     m = np.diff(y)
     stol = abs(tol * abs(m).max())
     pv = np.hstack((True, abs(m) > stol))
